@@ -8,6 +8,10 @@ import ScyllaVerif.Model.Carrier
 import ScyllaVerif.Model.Row
 import ScyllaVerif.Proofs.Carrier
 import ScyllaVerif.Proofs.Row
+import ScyllaVerif.Proofs.CarrierFits
+import ScyllaVerif.Proofs.CarrierStatic
+import ScyllaVerif.Proofs.CarrierTc
+import ScyllaVerif.Generated.DocMatrix
 
 namespace ScyllaVerif.Props.C17
 open ScyllaVerif.Vint ScyllaVerif.Cql ScyllaVerif.Carrier ScyllaVerif.Row
@@ -184,5 +188,148 @@ theorem fillNulls_eq (n : Nat) (sv : SV) (h : sv.count ≤ 65535) (t : CqlTy) :
     · have : min (n + 1) (65535 - sv.count) = min n (65535 - sv.count) + 1 := by omega
       simp [hfull, this, List.replicate_succ', List.append_assoc]
       omega
+
+/-! ## Part 2 — serialization: mismatches are always rejected
+
+`ser` is *value-directed* (as the Rust impls are): the element type of an empty `Vec`, the type behind a `None`
+are never looked at.  `fits t x` is that check written without buffers; `accepts c t` is the static relation
+between a carrier TYPE and a column type.  The theorems tie the three together, at any nesting depth. -/
+
+open ScyllaVerif.Proofs.CarrierFits (ser_rel)
+open ScyllaVerif.Proofs.CarrierStatic (accepts_fits reject_full)
+
+/-- Soundness: whatever was serialized successfully passed every type / shape check on the way. -/
+theorem ser_ok_fits (t : CqlTy) (x : RVal) (ws : Bool) (buf : Bytes) (h : (ser t x ws buf).2 = none) :
+    fits t x = true := (ser_rel t x ws buf).1 h
+
+/-- **Rejection**: a value that does not fit the column type is refused — whatever the buffer, whatever
+`write_size`, at whatever depth the misfit sits. -/
+theorem ser_rejects (t : CqlTy) (x : RVal) (ws : Bool) (buf : Bytes) (h : fits t x = false) :
+    ∃ e, (ser t x ws buf).2 = some e := by
+  cases hr : (ser t x ws buf).2 with
+  | some e => exact ⟨e, rfl⟩
+  | none => rw [ser_ok_fits t x ws buf hr] at h; cases h
+
+/-- Completeness up to sizes: a value that fits is serialized, unless a cell exceeds `i32::MAX` bytes or a
+collection `i32::MAX` elements (`SizeOverflow` / `TooManyElements` — the error branch is not assumed away). -/
+theorem ser_fits_ok_or_size (t : CqlTy) (x : RVal) (ws : Bool) (buf : Bytes) (h : fits t x = true) :
+    (ser t x ws buf).2 = none ∨ ∃ e, (ser t x ws buf).2 = some e ∧ e.kind.isSize = true := by
+  cases hr : (ser t x ws buf).2 with
+  | none => exact .inl rfl
+  | some e => exact .inr ⟨e, rfl, (ser_rel t x ws buf).2 h e hr⟩
+
+/- Full statement of `ser_ok_iff` (DESIGN §6 C17): `ser c t x = ok ↔ accepts c t ∧ nested sizes fit`, with the
+sizes given by an arithmetic predicate on the value.  Proved below with "nested sizes fit" expressed as "the call
+does not end in a size error" (no independent byte-count function of the value was defined), hence `_partial`. -/
+/-- `ser` succeeds iff the value fits the type and no size error occurs. -/
+theorem ser_ok_iff_partial (t : CqlTy) (x : RVal) (ws : Bool) (buf : Bytes) :
+    (ser t x ws buf).2 = none ↔
+      fits t x = true ∧ ∀ e, (ser t x ws buf).2 = some e → e.kind.isSize = false := by
+  constructor
+  · intro h; exact ⟨ser_ok_fits t x ws buf h, fun e he => by rw [h] at he; cases he⟩
+  · rintro ⟨hf, hs⟩
+    rcases ser_fits_ok_or_size t x ws buf hf with h | ⟨e, he, hk⟩
+    · exact h
+    · rw [hs e he] at hk; cases hk
+
+/-- A non-size error is a type-check error or a wrong vector dimension (nothing else exists). -/
+theorem error_classes (k : SerKind) : k.isSize = true ∨ k.isTypeCheck = true ∨ k = .invalidNumberOfElements := by
+  cases k <;> simp [SerKind.isSize, SerKind.isTypeCheck]
+
+/-- **Static acceptance ⇒ accepted**: if the carrier TYPE accepts the column type (and contains no `CqlValue`),
+every value of it whose sequences have the dimensions of the vectors they meet is serialized (or is too big). -/
+theorem accepted_pair_serializes (c : Carrier) (t : CqlTy) (x : RVal) (ws : Bool) (buf : Bytes)
+    (ha : accepts c t = true) (ht : hasType c x = true) (hn : noDyn c = true) (hd : dimsOk t x = true) :
+    (ser t x ws buf).2 = none ∨ ∃ e, (ser t x ws buf).2 = some e ∧ e.kind.isSize = true :=
+  ser_fits_ok_or_size t x ws buf (accepts_fits c t x ha ht hn hd)
+
+/-- **Static mismatch ⇒ rejected**: if the carrier TYPE does not accept the column type, every fully populated
+value of it is refused (an empty collection / `None` never reaches the mismatch: see the `example` below). -/
+theorem mismatched_pair_rejected (c : Carrier) (t : CqlTy) (x : RVal) (ws : Bool) (buf : Bytes)
+    (ha : accepts c t = false) (ht : hasType c x = true) (hf : full x = true) :
+    ∃ e, (ser t x ws buf).2 = some e :=
+  ser_rejects t x ws buf (reject_full c t x ha ht hf)
+
+/-- … and nothing of the mismatched value is bound: `add_value` fails and leaves the values as they were. -/
+theorem mismatched_pair_never_bound (c : Carrier) (t : CqlTy) (x : RVal) (sv : SV)
+    (ha : accepts c t = false) (ht : hasType c x = true) (hf : full x = true) :
+    ∃ e, addValue t x sv = (sv, some e) := by
+  generalize hr : addValue t x sv = r
+  obtain ⟨sv', oe⟩ := r
+  cases oe with
+  | some e => rw [add_value_atomic t x sv sv' e hr]; exact ⟨e, rfl⟩
+  | none =>
+    exfalso
+    obtain ⟨e, he⟩ := mismatched_pair_rejected c t x true sv.bytes ha ht hf
+    unfold addValue addValueWith at hr
+    split at hr
+    · cases hr
+    · generalize ser t x true sv.bytes = q at hr he
+      obtain ⟨b, oe⟩ := q
+      simp only at he
+      subst he
+      simp at hr
+
+/-- Non-vacuity and the value-directedness: `Vec<i32>` against `list<text>` — the type pair is a mismatch, a
+populated value is rejected (nested: the error wraps the element's `MismatchedType`), the EMPTY vector is written. -/
+example :
+    accepts (.vec (.scalar .i32)) (.list (.native .text)) = false ∧
+    (ser (.list (.native .text)) (.vec [.scalar .i32 [0, 0, 0, 1]]) true []).2 = some ⟨[.elem], .mismatchedType⟩ ∧
+    ser (.list (.native .text)) (.vec []) true [] = ([0, 0, 0, 4, 0, 0, 0, 0], none) ∧
+    accepts (.hashMap (.scalar .str) (.vec (.opt (.scalar .i64)))) (.map (.native .ascii) (.vector (.native .bigint) 3)) = true ∧
+    hasType (.hashMap (.scalar .str) (.vec (.opt (.scalar .i64)))) (.map [(.scalar .str [97], .vec [.none])]) = true := by
+  decide +kernel
+
+/-! ## Part 3 — deserialization: `type_check` -/
+
+open ScyllaVerif.Proofs.CarrierTc (tcheck_iff tcheckCols_iff)
+
+/-- **`deser_typecheck_iff`**: `T::type_check(typ)` succeeds exactly on the pairs of `deserAccepts`, for every
+carrier type and column type at any nesting depth (it recurses into element / key / value / field types). -/
+theorem deser_typecheck_iff (c : Carrier) (t : CqlTy) : tcheck c t = none ↔ deserAccepts c t = true :=
+  tcheck_iff c t
+
+/-- Row level: a Rust tuple type-checks against the column specs iff the counts are equal and every column
+type-checks; `Row` / `ColumnIterator` accept everything. -/
+theorem row_typecheck_iff (cs : List Carrier) (ts : List CqlTy) :
+    tcheckRow (.cols cs) ts = none ↔ cs.length = ts.length ∧ deserAcceptsZip cs ts = true := by
+  unfold tcheckRow
+  by_cases h : cs.length = ts.length
+  · simp [h, tcheckCols_iff]
+  · simp [h, tcLeaf]
+
+theorem row_untyped (ts : List CqlTy) : tcheckRow .untyped ts = none := rfl
+
+/-- On read, sets are not lists and tuples need the exact arity; on write they do not (non-vacuity of the
+difference between the two relations). -/
+example :
+    deserAccepts (.hashSet (.scalar .i32)) (.list (.native .int)) = false ∧
+    accepts (.hashSet (.scalar .i32)) (.list (.native .int)) = true ∧
+    deserAccepts (.tuple [.scalar .i32]) (.tuple [.native .int, .native .text]) = false ∧
+    accepts (.tuple [.scalar .i32]) (.tuple [.native .int, .native .text]) = true ∧
+    tcheck (.vec (.hashMap (.scalar .i32) (.scalar .str))) (.list (.map (.native .int) (.native .int)))
+      = some ⟨[.elem, .val], .mismatchedType⟩ := by decide +kernel
+
+/-! ## Part 4 — the documentation's compatibility matrix (TESTS over finite universes, not theorems) -/
+
+open ScyllaVerif.DocMatrix
+
+/-- TEST `accepts_matches_docs`, leaves: for all 19 leaf carriers × 20 natives both relations are exactly the
+documented table (an `exact_type_check!` listing an extra native fails here). -/
+example : allScalars.all (fun s => allNatives.all (fun n =>
+    accepts (.scalar s) (.native n) == (docNatives s).contains n &&
+    deserAccepts (.scalar s) (.native n) == (docNatives s).contains n)) = true := by decide +kernel
+
+/-- TEST, one nesting level over ALL leaves and natives (167 carriers × 200 column types): `type_check` accepts exactly the
+documented pairs; `serialize` accepts every documented pair, and exactly the documented pairs plus the three
+deviations the code documents (`docLooseSer`). -/
+example : carriers1.all (fun c => types1.all (fun t =>
+    deserAccepts c t == docAccepts c t && accepts c t == docLooseSer c t && (!docAccepts c t || accepts c t)))
+    = true := by decide +kernel
+
+/-- TEST, two nesting levels (64 carriers of depth 2 × 200 column types of depth ≤ 2). -/
+example : carriers2.all (fun c => types2.all (fun t =>
+    deserAccepts c t == docAccepts c t && accepts c t == docLooseSer c t && (!docAccepts c t || accepts c t)))
+    = true := by decide +kernel
 
 end ScyllaVerif.Props.C17
